@@ -8,7 +8,7 @@ use crate::zfam;
 pub const INFO: CheckInfo = CheckInfo {
     prop: "C04",
     level: "model_checking",
-    rule: "for every stream of the R4 corpus (valid, invalid, truncated; raw/zlib/gzip) and a lattice of its single-fault mutations: the one-call ample-buffer run is the reference execution; then ALL compositions of the input into pieces (streams <= 10 bytes) x output room {1,2,ample}, every single split position (streams <= 300 bytes), 1-byte input pieces, output rooms {1,2,3,257..261, 32767..32769}, each of the five flush values applied to every call and to the first call only. Output bytes, final verdict and consumed input must equal the reference execution. States/transitions: decoder resume states (mode, bit-buffer fill, last-block, window fill/ match-length buckets) observed through hook H2 after every call; the run is rejected as vacuous unless every resumable mode was entered.",
+    rule: "for every stream of the R4 corpus (valid, invalid, truncated; raw/zlib/gzip) and a lattice of its single-fault mutations: the one-call ample-buffer run is the reference execution; then ALL compositions of the input into pieces (streams <= 10 bytes) x output room {1,2,ample}, every single split position (streams <= 300 bytes), 1-byte input pieces, output rooms {1,2,3,257..261, 32767..32769}, each of the five flush values applied to every call and to the first call only; for intact streams encoding <= 700 bytes additionally EVERY position of the first output-buffer end (room r for the first call, r = 1..len-1, then ample) and every uniform room size 4..300. Output bytes, final verdict and consumed input must equal the reference execution. States/transitions: decoder resume states (mode, bit-buffer fill, last-block, window fill/ match-length buckets) observed through hook H2 after every call; the run is rejected as vacuous unless every resumable mode was entered.",
     assumptions: &["schedules with more than one split on streams > 10 bytes, other room sizes, and streams outside the corpus are not covered", "hook H2 is read-only"],
     bound_quick: "corpus programs <= 3 tokens, every 5th mutation, SI-all for streams <= 9 bytes",
     bound_thorough: "every mutation, SI-all for streams <= 12 bytes",
@@ -27,7 +27,7 @@ fn same(base: &ITrace, t: &ITrace, what: &str) -> Result<(), String> {
     Ok(())
 }
 
-pub fn explore(c: &mut Case, env: &Env, wb: i32, bytes: &[u8], si_all_max: usize, expect_out: usize) -> Result<(), String> {
+pub fn explore(c: &mut Case, env: &Env, wb: i32, bytes: &[u8], si_all_max: usize, expect_out: usize, sweep_out: bool) -> Result<(), String> {
     let ex = IExtra { probe: true, expect_out, ..Default::default() };
     c.exec();
     let base = run_inflate::<Rs>(wb, bytes, &ISched::one_shot(), env, &ex, Some(c))?;
@@ -80,6 +80,21 @@ pub fn explore(c: &mut Case, env: &Env, wb: i32, bytes: &[u8], si_all_max: usize
             scheds.push(ISched { steps: vec![IStep { n: n / 2, room: 1, flush: f }], tail_in: AMPLE, tail_room: 7, tail_flush: Z_NO_FLUSH });
         }
     }
+    // every position of the first output-buffer end (then ample room), and every uniform room size: the output-side
+    // counterpart of "every single split position" (match copies are cut short by avail_out at every offset, and end
+    // at every distance from the end of the room)
+    let on = base.out.len();
+    if sweep_out && (2..=700).contains(&on) {
+        for r in 1..on {
+            scheds.push(ISched { steps: vec![IStep { n: AMPLE, room: r, flush: Z_NO_FLUSH }], tail_in: AMPLE, tail_room: AMPLE, tail_flush: Z_NO_FLUSH });
+            c.count("output_cut_positions", 1);
+        }
+        for r in 4..=on.min(300) {
+            if ![5, 257, 258, 259, 260, 261].contains(&r) {
+                scheds.push(ISched::uniform(AMPLE, r, Z_NO_FLUSH));
+            }
+        }
+    }
     for sch in &scheds {
         c.exec();
         let t = run_inflate::<Rs>(wb, bytes, sch, env, &ex, Some(c))?;
@@ -106,7 +121,7 @@ pub fn run(ctx: &mut Ctx) {
                 if it.mut_idx != 0 {
                     c.nontrivial();
                 }
-                explore(c, &env, it.wb, it.bytes, si_all, expect)
+                explore(c, &env, it.wb, it.bytes, si_all, expect, it.mut_idx == 0)
             },
         );
     });
@@ -120,7 +135,7 @@ pub fn run(ctx: &mut Ctx) {
         ctx.case(
             "chunking-fdict",
             || format!("zlib stream with FDICT truncated at {cut}: {}", hex(&bytes)),
-            |c| explore(c, &env, 15, &bytes, 9, 64),
+            |c| explore(c, &env, 15, &bytes, 9, 64, cut == z.len()),
         );
     }
 }
